@@ -370,6 +370,9 @@ class Check:
         """Record a rejected real-code observation. key identifies the failing input/call site."""
         for k in self.known():
             if re.fullmatch(k["key"], key):
+                if os.environ.get("VERIF_DUMP_KNOWN"):  # development aid: every key matched by a known finding
+                    with open(os.environ["VERIF_DUMP_KNOWN"], "a") as fh:
+                        fh.write("%s\t%s\t%s\n" % (self.pid, key, desc[:300].replace("\n", " ")))
                 if k["key"] not in [h["key"] for h in self.known_hits]:
                     self.known_hits.append(dict(key=k["key"], what=k["what"], example=key))
                 return
